@@ -1,5 +1,7 @@
 package admission
 
+import "net/http"
+
 // Guarded stub of the admission response decoder (encoding/json).
 var VResponseFromBytesFn func(data []byte) (*Response, error)
 
@@ -7,3 +9,17 @@ func vRespActive() bool { return VResponseFromBytesFn != nil }
 
 //verif:stub $R/pkg/webhook/admission.ResponseFromBytes if vRespActive
 func vResponseFromBytes(data []byte) (*Response, error) { return VResponseFromBytesFn(data) }
+
+// Guarded stubs of the TLS server / API registration side of the manager.
+var VNoServer bool
+
+func vNoServer() bool { return VNoServer }
+
+//verif:stub (*$R/pkg/webhook/admission.WebhookManager).Init if vNoServer
+func vInit(m *WebhookManager) error { return nil }
+
+//verif:stub (*$R/pkg/webhook/admission.WebhookManager).Start if vNoServer
+func vStart(m *WebhookManager) error { return nil }
+
+// VServe runs the real HTTP handler body (exporter for the unexported method).
+func VServe(h *WebhookHandler, w http.ResponseWriter, r *http.Request) { h.serveReviewRequest(w, r) }
